@@ -1,9 +1,13 @@
 package props
 
 import (
+	"bytes"
 	"encoding/binary"
 	"fmt"
 	"math"
+	"seehuhn.de/go/sfnt/hmtx"
+	"seehuhn.de/go/sfnt/post"
+	"sync"
 	"time"
 
 	"seehuhn.de/go/geom/rect"
@@ -36,8 +40,79 @@ func init() {
 func rdI16(b []byte, off int) int { return int(int16(binary.BigEndian.Uint16(b[off:]))) }
 func rdU16(b []byte, off int) int { return int(binary.BigEndian.Uint16(b[off:])) }
 
+// c12concurrent: encoders working on values of their own at the same time
+// produce what they produce alone (tables are encoded by whoever writes a
+// font; nothing in the values is shared).
+func c12concurrent(c *mon.Ctx) {
+	c.Stratum("tables-concurrent", c.N(24, 600), func(k *mon.Case) {
+		r := k.Rng
+		const G = 8
+		type job struct {
+			hm *hmtx.Info
+			po *post.Info
+		}
+		jobs := make([][]job, G)
+		for g := range jobs {
+			for j := 0; j < 80; j++ {
+				n := 1 + r.IntN(8)
+				hm := &hmtx.Info{Widths: make([]funit.Int16, n), LSB: make([]funit.Int16, n),
+					Ascent: funit.Int16(600 + r.IntN(400)), Descent: -funit.Int16(100 + r.IntN(300)), LineGap: funit.Int16(r.IntN(200)),
+					CaretAngle: (r.Float64() - 0.5) * 1.2, CaretOffset: funit.Int16(r.IntN(50))}
+				if r.IntN(6) == 0 {
+					hm.CaretAngle = 0
+				}
+				for i := range hm.Widths {
+					hm.Widths[i] = funit.Int16(r.IntN(2000))
+					hm.LSB[i] = funit.Int16(r.IntN(200) - 100)
+				}
+				po := &post.Info{ItalicAngle: float64(r.IntN(4000)-2000) / 64, UnderlinePosition: -funit.Int16(r.IntN(200)), UnderlineThickness: funit.Int16(1 + r.IntN(100))}
+				jobs[g] = append(jobs[g], job{hm, po})
+			}
+		}
+		type res struct{ hhea, hmtx, post []byte }
+		results := make([][]res, G)
+		panics := make([]any, G)
+		var wg sync.WaitGroup
+		gate := make(chan struct{})
+		for g := 0; g < G; g++ {
+			wg.Add(1)
+			go func(g int) {
+				defer wg.Done()
+				<-gate
+				panics[g], _ = mon.Try(func() {
+					for _, jb := range jobs[g] {
+						hh, hm := jb.hm.Encode()
+						results[g] = append(results[g], res{hh, hm, jb.po.Encode()})
+					}
+				})
+			}(g)
+		}
+		close(gate)
+		wg.Wait()
+		for g := range jobs {
+			if panics[g] != nil {
+				k.Fail("panic", "concurrent:encode-panic:"+mon.PanicClass(panics[g]), "an encoder panicked while %d goroutines encoded tables of their own: %v", G, panics[g])
+				return
+			}
+			for j, jb := range jobs[g] {
+				hh, hm := jb.hm.Encode()
+				po := jb.po.Encode()
+				k.Eval()
+				if j >= len(results[g]) || !bytes.Equal(hh, results[g][j].hhea) || !bytes.Equal(hm, results[g][j].hmtx) || !bytes.Equal(po, results[g][j].post) {
+					k.Fail("mismatch", "concurrent:encode-result-differs", "goroutine %d, value %d: the tables encoded while %d goroutines were encoding differ from the tables encoded alone (caret angle %v, italic angle %v)", g, j, G, jb.hm.CaretAngle, jb.po.ItalicAngle)
+					return
+				}
+			}
+		}
+		k.Class("tables-concurrent:compared")
+		k.Distinct("tables-concurrent", k.Index)
+	})
+	c.Require("tables-concurrent:compared")
+}
+
 func runC12(c *mon.Ctx) {
 	c12tables(c)
+	c12concurrent(c)
 	encodeAliasing(c, "tables", c.N(300, 20000), tableAliasEncoders)
 	c.Stratum("fonts", c.N(900, 20000), func(k *mon.Case) {
 		r := k.Rng
